@@ -294,6 +294,7 @@ type printer struct {
 	exportDefaultStart int
 	arrowExprStart     int
 	forOfInitStart     int
+	forInitStart       int
 
 	withNesting          int
 	prevOpEnd            int
@@ -1876,6 +1877,7 @@ const (
 	exportDefaultStartFlag
 	arrowExprStartFlag
 	forOfInitStartFlag
+	forInitStartFlag
 )
 
 func (p *printer) saveExprStartFlags() (flags exprStartFlags) {
@@ -1891,6 +1893,9 @@ func (p *printer) saveExprStartFlags() (flags exprStartFlags) {
 	}
 	if p.forOfInitStart == n {
 		flags |= forOfInitStartFlag
+	}
+	if p.forInitStart == n {
+		flags |= forInitStartFlag
 	}
 	return
 }
@@ -1909,6 +1914,9 @@ func (p *printer) restoreExprStartFlags(flags exprStartFlags) {
 		}
 		if (flags & forOfInitStartFlag) != 0 {
 			p.forOfInitStart = n
+		}
+		if (flags & forInitStartFlag) != 0 {
+			p.forInitStart = n
 		}
 	}
 }
@@ -1999,6 +2007,7 @@ const (
 	isDeleteTarget
 	isCallTargetOrTemplateTag
 	isPropertyAccessTarget
+	isIndexTarget
 	parentWasUnaryOrBinaryOrIfTest
 )
 
@@ -2620,7 +2629,11 @@ func (p *printer) printExpr(expr js_ast.Expr, level js_ast.L, flags printExprFla
 			}
 			flags &= ^(isNewTarget | hasNonOptionalChainParent)
 		}
-		p.printExpr(e.Target, js_ast.LPostfix, (flags&(isNewTarget|hasNonOptionalChainParent))|isPropertyAccessTarget)
+		targetFlags := (flags & (isNewTarget | hasNonOptionalChainParent)) | isPropertyAccessTarget
+		if e.OptionalChain != js_ast.OptionalChainStart {
+			targetFlags |= isIndexTarget
+		}
+		p.printExpr(e.Target, js_ast.LPostfix, targetFlags)
 		if e.OptionalChain == js_ast.OptionalChainStart {
 			p.print("?.")
 		}
@@ -3146,8 +3159,14 @@ func (p *printer) printExpr(expr js_ast.Expr, level js_ast.L, flags printExprFla
 
 	case *js_ast.EIdentifier:
 		name := p.renamer.NameForSymbol(e.Ref)
-		wrap := len(p.js) == p.forOfInitStart && (name == "let" ||
+		n := len(p.js)
+		wrap := n == p.forOfInitStart && (name == "let" ||
 			((flags&isFollowedByOf) != 0 && (flags&isInsideForAwait) == 0 && name == "async"))
+
+		// "let [" at the start of a statement or of a "for" loop is a declaration
+		if name == "let" && (flags&isIndexTarget) != 0 && (n == p.stmtStart || n == p.forInitStart) {
+			wrap = true
+		}
 
 		if wrap {
 			p.print("(")
@@ -4431,6 +4450,7 @@ func (p *printer) printStmt(stmt js_ast.Stmt, flags printStmtFlags) {
 			p.options.Indent++
 			p.printIndent()
 		}
+		p.forInitStart = len(p.js)
 		p.printForLoopInit(s.Init, forbidIn)
 		p.printSpace()
 		p.printSpaceBeforeIdentifier()
@@ -4613,6 +4633,7 @@ func (p *printer) printStmt(stmt js_ast.Stmt, flags printStmtFlags) {
 			p.printIndent()
 		}
 		if init.Data != nil {
+			p.forInitStart = len(p.js)
 			p.printForLoopInit(init, forbidIn)
 		}
 		p.print(";")
@@ -4981,6 +5002,7 @@ func Print(tree js_ast.AST, symbols ast.SymbolMap, r renamer.Renamer, options Op
 		exportDefaultStart: -1,
 		arrowExprStart:     -1,
 		forOfInitStart:     -1,
+		forInitStart:       -1,
 
 		prevOpEnd:            -1,
 		needSpaceBeforeDot:   -1,
